@@ -334,13 +334,11 @@ def run(ctx: Ctx):
                 hit = True
             if hit and f_.name == "remove_peer_connection":
                 # the removed connection's own records: their answers can no longer arrive
-                par_ = A.parents(f_.node)
-                x, own = n, False
-                while x in par_:
-                    x = par_[x]
-                    if isinstance(x, ast.If) and ".startswith(" in ast.unparse(x.test) \
-                            and ".ident" in ast.unparse(x.test):
-                        own = True
+                gq = cfg_of(f_)
+                atq = Atomizer(model, f_.module, f_.cls)
+                qn = [x for x in gq.nodes if x.kind == "stmt" and (x.ast is n or n in list(x.walk()))]
+                own = bool(qn) and any(".startswith(" in fx[0] and ".ident" in fx[0] and fx[1] == "truthy" and fx[3]
+                                       for fx in must_facts(gq, atq, qn[0]))
                 if own:
                     continue
             if hit:
